@@ -24,6 +24,10 @@ type pg struct {
 	stats  map[string]int
 	nested [][]gen.Val
 	seenUse bool
+	// round 6
+	pkgs     []string // package names to draw from (pkgNames + host packages of the case)
+	hostPkgs []string
+	curGuess string // the package the generator believes is current (steers spelling only)
 }
 
 func (g *pg) n(lo, hi int, l string) int { return rapid.IntRange(lo, hi).Draw(g.t, l) }
@@ -32,7 +36,7 @@ func (g *pg) pick(l string, o ...string) string {
 }
 func (g *pg) sym() string { return g.pick("sym", symNames...) }
 func (g *pg) pkg() string {
-	p := g.pick("pkg", pkgNames...)
+	p := g.pick("pkg", g.pkgs...)
 	if p == "lisp" {
 		// the program works inside the language package itself: it may change
 		// what later packages start with
@@ -44,6 +48,12 @@ func (g *pg) pkg() string {
 // ref: an expression that references a name, unqualified or qualified.
 func (g *pg) ref() gen.Val {
 	name := g.sym()
+	if g.n(0, 7, "wide-ref") == 0 {
+		// a name the language package holds (special operator, builtin macro,
+		// builtin function): unqualified, pkg:name, in head and value position
+		name, _ = g.wideName()
+		g.stats["wide-ref"]++
+	}
 	switch g.n(0, 5, "refkind") {
 	case 0, 1:
 		g.stats["qualified-ref"]++
@@ -78,10 +88,13 @@ func (g *pg) body() gen.Val {
 }
 
 func (g *pg) stmt(depth int) gen.Val {
-	switch g.n(0, 23, "stmt") {
+	switch g.n(0, 33, "stmt") {
 	case 0, 1:
 		g.stats["in-package"]++
-		return gen.Call("in-package", gen.QS(g.pkg()))
+		p := g.pkg()
+		op := g.op("in-package")
+		g.curGuess = p
+		return gen.Call(op, gen.QS(p))
 	case 2, 3:
 		g.stats["export"]++
 		if g.seenUse {
@@ -90,17 +103,17 @@ func (g *pg) stmt(depth int) gen.Val {
 		switch g.n(0, 5, "exportform") {
 		case 3:
 			// a list argument followed by further arguments
-			return gen.Call("export", gen.QL(gen.S(g.sym()), gen.S(g.sym())), gen.QS(g.sym()))
+			return gen.Call(g.op("export"), gen.QL(gen.S(g.sym()), gen.S(g.sym())), gen.QS(g.sym()))
 		case 4:
-			return gen.Call("export", gen.QS(g.sym()), gen.QL(gen.S(g.sym())), gen.Str(g.sym()), gen.QS(g.sym()))
+			return gen.Call(g.op("export"), gen.QS(g.sym()), gen.QL(gen.S(g.sym())), gen.Str(g.sym()), gen.QS(g.sym()))
 		case 5:
-			return gen.Call("export", gen.QL(gen.S(g.sym()), gen.QL(gen.S(g.sym()))), gen.Str(g.sym()))
+			return gen.Call(g.op("export"), gen.QL(gen.S(g.sym()), gen.QL(gen.S(g.sym()))), gen.Str(g.sym()))
 		case 0:
-			return gen.Call("export", gen.QS(g.sym()))
+			return gen.Call(g.op("export"), gen.QS(g.sym()))
 		case 1:
-			return gen.Call("export", gen.QS(g.sym()), gen.Str(g.sym()))
+			return gen.Call(g.op("export"), gen.QS(g.sym()), gen.Str(g.sym()))
 		default:
-			return gen.Call("export", gen.QL(gen.S(g.sym()), gen.S(g.sym())))
+			return gen.Call(g.op("export"), gen.QL(gen.S(g.sym()), gen.S(g.sym())))
 		}
 	case 4, 5, 6:
 		g.stats["set"]++
@@ -112,13 +125,13 @@ func (g *pg) stmt(depth int) gen.Val {
 			g.stats["qualified-set"]++
 			name = g.pkg() + ":" + name
 		}
-		return gen.Call("set", gen.QS(name), g.newVal())
+		return gen.Call(g.op("set"), gen.QS(name), g.newVal())
 	case 7, 8:
 		g.stats["defun"]++
 		if g.seenUse {
 			g.stats["redefinition-after-use"]++
 		}
-		return gen.L(gen.S("defun"), gen.S(g.sym()), gen.L(gen.S("x")), g.body())
+		return gen.L(gen.S(g.op("defun")), gen.S(g.sym()), gen.L(gen.S("x")), g.body())
 	case 9:
 		g.stats["defmacro"]++
 		// the expansion mentions an UNQUALIFIED name: it resolves where the
@@ -145,10 +158,17 @@ func (g *pg) stmt(depth int) gen.Val {
 	case 10, 11:
 		g.stats["use-package"]++
 		g.seenUse = true
-		if g.n(0, 3, "str") == 0 {
-			return gen.Call("use-package", gen.Str(g.pkg()))
+		used := g.pkg()
+		if g.n(0, 5, "use-lang") == 0 {
+			// the language package used AGAIN: an old package picks up what the
+			// language package exports by now
+			used = "lisp"
+			g.stats["use-package-lisp"]++
 		}
-		return gen.Call("use-package", gen.QS(g.pkg()))
+		if g.n(0, 3, "str") == 0 {
+			return gen.Call(g.op("use-package"), gen.Str(used))
+		}
+		return gen.Call(g.op("use-package"), gen.QS(used))
 	case 12, 13, 14, 15:
 		return g.ref()
 	case 16:
@@ -232,9 +252,36 @@ func (g *pg) stmt(depth int) gen.Val {
 		// a closure defined in one package and called later
 		return gen.Call("set", gen.QS(g.sym()), gen.L(gen.S("lambda"), gen.L(gen.S("x")), g.body()))
 	case 20:
-		return gen.Call("funcall", gen.QS(g.sym()), gen.I(1))
+		return gen.Call(g.op("funcall"), gen.QS(g.sym()), gen.I(1))
+	case 24, 25, 26, 27:
+		// a local binding (every binding form) of a name of any kind, used in
+		// head and value position
+		name, kind := g.wideName()
+		return g.shadowForm(name, kind, 2)
+	case 28, 29:
+		// the language package grows: a definition, exported or private
+		return g.langGrow(g.pick("lang-name", langRedefNames...), g.n(0, 3, "lang-export") != 0)
+	case 30:
+		return g.rebindWide()
+	case 31:
+		if len(g.hostPkgs) > 0 && depth > 0 {
+			return g.hostVisit(depth)
+		}
+		name, kind := g.wideName()
+		return g.shadowForm(name, kind, 1)
+	case 32:
+		// references of every spelling to a name the language package may have
+		// gained meanwhile
+		g.stats["late-refs"]++
+		items := []gen.Val{gen.S("lisp:progn")}
+		for _, r := range g.lateRefs(g.sym()) {
+			items = append(items, g.wrap(r))
+		}
+		return gen.L(items...)
 	default:
-		return gen.Call("in-package", gen.Str(g.pkg()))
+		p := g.pkg()
+		g.curGuess = p
+		return gen.Call(g.op("in-package"), gen.Str(p))
 	}
 }
 
@@ -251,13 +298,88 @@ type Case struct {
 	Forms  []gen.Val      `json:"forms"`
 	Nested [][]gen.Val    `json:"nested"`
 	Stats  map[string]int `json:"stats"`
+	// Host: packages the HOST registers with the Go API before the program runs
+	Host []HostPkg `json:"host,omitempty"`
 }
 
 func genCase() *rapid.Generator[Case] {
 	return rapid.Custom(func(t *rapid.T) Case {
-		g := &pg{t: t, stats: map[string]int{}}
+		g := &pg{t: t, stats: map[string]int{}, curGuess: "user"}
 		n := rapid.IntRange(3, 22).Draw(t, "nstmts")
 		var forms []gen.Val
+		var host []HostPkg
+		g.pkgs = append(g.pkgs, pkgNames...)
+		switch rapid.IntRange(0, 4).Draw(t, "host-packages") {
+		case 0:
+			host = []HostPkg{{Name: hostPkgNoLang}}
+		case 1:
+			host = []HostPkg{{Name: hostPkgNoLang, ViaEnv: true}, {Name: hostPkgLang, UseLang: true}}
+		case 2:
+			host = []HostPkg{{Name: hostPkgLang, UseLang: true, ViaEnv: true}}
+		}
+		for _, h := range host {
+			g.stats["host-package"]++
+			if !h.UseLang {
+				g.stats["host-package-no-lang"]++
+			}
+			g.pkgs = append(g.pkgs, h.Name)
+			g.hostPkgs = append(g.hostPkgs, h.Name)
+		}
+		if rapid.IntRange(0, 5).Draw(t, "scripted-late") == 0 {
+			// a directed opening: P exists (and has a function reading SYM
+			// unqualified); THEN the language package binds and exports SYM.
+			// P did not copy it: SYM is unbound there, by every spelling, until P
+			// uses the language package again; lisp:SYM and a package created
+			// afterwards see it.
+			g.stats["scripted-late-language-export"]++
+			sym := g.sym()
+			reader := "h"
+			if sym == "h" {
+				reader = "g"
+			}
+			P := g.pkg()
+			np := g.pick("newpkg", "pd", "pe", "pr", "pq")
+			add := func(v gen.Val) { forms = append(forms, g.wrap(v)) }
+			if P == hostPkgNoLang {
+				add(gen.Call("lisp:in-package", gen.QS(P)))
+				add(gen.L(gen.S("lisp:defun"), gen.S(reader), gen.L(), gen.Call("lisp:list", gen.S(sym))))
+			} else {
+				add(gen.Call("in-package", gen.QS(P)))
+				add(gen.L(gen.S("defun"), gen.S(reader), gen.L(), gen.Call("list", gen.S(sym))))
+			}
+			g.curGuess = P
+			exported := g.n(0, 4, "late-exported") != 0
+			g.stats["lang-grow"]++
+			g.stats["touches-language-package"]++
+			if exported {
+				g.stats["lang-grow-exported"]++
+			}
+			lf := g.langGrowForms(sym, exported)
+			if g.n(0, 1, "late-inline") == 0 || P == hostPkgNoLang {
+				g.nested = append(g.nested, lf)
+				add(gen.Call("lisp:load-string", gen.Str(gen.RenderProgram(lf))))
+			} else {
+				for _, f := range lf {
+					add(f)
+				}
+				add(gen.Call("in-package", gen.QS(P)))
+			}
+			for _, r := range g.lateRefs(sym) {
+				add(r)
+			}
+			add(gen.L(gen.S(reader)))
+			if g.n(0, 1, "late-new-package") == 0 {
+				add(gen.Call("lisp:in-package", gen.QS(np)))
+				add(gen.S(sym))
+				add(gen.L(gen.S(P + ":" + reader)))
+				add(gen.Call("lisp:in-package", gen.QS(P)))
+			}
+			if g.n(0, 1, "late-reuse") == 0 {
+				add(gen.Call("lisp:use-package", gen.QS("lisp")))
+				add(gen.S(sym))
+				add(gen.L(gen.S(reader)))
+			}
+		}
 		if rapid.IntRange(0, 5).Draw(t, "scripted-private") == 0 {
 			// a directed opening: a private binding appears in the language
 			// package, THEN a package is created: it must not inherit it
@@ -310,7 +432,7 @@ func genCase() *rapid.Generator[Case] {
 		for i := 0; i < n; i++ {
 			forms = append(forms, g.wrap(g.stmt(2)))
 		}
-		return Case{Forms: forms, Nested: g.nested, Stats: g.stats}
+		return Case{Forms: forms, Nested: g.nested, Stats: g.stats, Host: host}
 	})
 }
 
@@ -336,6 +458,31 @@ func check(cs Case, c *vcommon.Ctx) *vcommon.Failure {
 	for k, n := range cs.Stats {
 		if n > 0 {
 			c.Class("has/" + k)
+		}
+	}
+	// packages registered by the host through the Go API: nothing is imported
+	// unless the host says so
+	for _, h := range cs.Host {
+		if h.ViaEnv {
+			rt.Env.DefinePackage(lisp.Symbol(h.Name))
+		} else {
+			rt.Env.Runtime.Registry.DefinePackage(h.Name)
+		}
+		rp := &refint.Package{Name: h.Name, Syms: map[string]*refint.V{}}
+		in.Pkgs[h.Name] = rp
+		if h.UseLang {
+			rt.Env.InPackage(lisp.Symbol(h.Name))
+			rc := rt.Env.UsePackage(lisp.Symbol(lisp.DefaultLangPackage))
+			rt.Env.InPackage(lisp.Symbol(lisp.DefaultUserPackage))
+			if rc.Type == lisp.LError {
+				return vcommon.Failf("host/use-package", "UsePackage(lisp) from a host package fails: %v", rc)
+			}
+			lang := in.Pkgs[refint.LangPkg]
+			for _, name := range lang.Exports {
+				if v, ok := lang.Syms[name]; ok {
+					rp.Syms[name] = v
+				}
+			}
 		}
 	}
 	npk := 0
@@ -382,7 +529,7 @@ func check(cs Case, c *vcommon.Ctx) *vcommon.Failure {
 	}
 	// registry contents: same packages, same bound names, same export lists
 	reg := rt.Env.Runtime.Registry
-	for _, pn := range []string{"user", "pa", "pb", "pc"} {
+	for _, pn := range []string{"user", "pa", "pb", "pc", "pd", "pe", "pq", "pr", hostPkgNoLang, hostPkgLang, "lisp"} {
 		rp := in.Pkgs[pn]
 		p := reg.Package(pn)
 		if (rp == nil) != (p == nil) {
@@ -401,19 +548,49 @@ func check(cs Case, c *vcommon.Ctx) *vcommon.Failure {
 				return vcommon.Failf("registry/binding-value", "%s:%s = %s, reference %s\n%s", pn, sn, vcommon.Canon(v), refint.Canon(rvv), src)
 			}
 		}
+		// names of the language package (special operators, builtin macros and
+		// functions): bound or not, what kind of thing, and whether it is still
+		// the language package's own object
+		lang, rlang := reg.Package(lisp.DefaultLangPackage), in.Pkgs[refint.LangPkg]
+		for _, sn := range wideNames {
+			v, ok := p.Symbol(sn)
+			rvv, rok := rp.Syms[sn]
+			if ok != rok {
+				return vcommon.Failf("registry/binding", "%s:%s bound: real %v reference %v\n%s", pn, sn, ok, rok, src)
+			}
+			if !ok {
+				continue
+			}
+			if got, want := kindOf(v), refKindOf(rvv); got != want {
+				return vcommon.Failf("registry/binding-value", "%s:%s is %s, reference %s\n%s", pn, sn, got, want, src)
+			}
+			lv, lok := lang.Symbol(sn)
+			rlv, rlok := rlang.Syms[sn]
+			if lok && rlok && v.Type == lisp.LFun && lv.Type == lisp.LFun {
+				if got, want := v == lv, rvv == rlv; got != want {
+					return vcommon.Failf("registry/binding-identity", "%s:%s is the language package's binding: real %v reference %v\n%s", pn, sn, got, want, src)
+				}
+			}
+		}
 		var ex []string
 		have := map[string]bool{}
 		for _, e := range p.Externals() {
 			have[e] = true
 		}
-		for _, sn := range symNames {
+		watched := append(append([]string{}, symNames...), wideNames...)
+		if pn == "lisp" {
+			// the language package exports hundreds of names the reference does
+			// not have: only the user names are compared there
+			watched = symNames
+		}
+		for _, sn := range watched {
 			if have[sn] {
 				ex = append(ex, sn)
 			}
 		}
 		var rex []string
 		for _, e := range rp.Exports {
-			for _, sn := range symNames {
+			for _, sn := range watched {
 				if e == sn {
 					rex = append(rex, e)
 				}
@@ -429,7 +606,7 @@ func check(cs Case, c *vcommon.Ctx) *vcommon.Failure {
 	// the pristine language package: programs that export or rebind names IN
 	// the language package are judged by the reference interpreter above)
 	for _, pn := range []string{"pa", "pb", "pc", "pd", "pe"} {
-		if p := reg.Package(pn); p != nil && cs.Stats["touches-language-package"] == 0 {
+		if p := reg.Package(pn); p != nil && cs.Stats["touches-language-package"] == 0 && cs.Stats["wide-rebind"] == 0 {
 			lang := reg.Package(lisp.DefaultLangPackage)
 			for _, name := range []string{"car", "let", "defun", "handler-bind", "+"} {
 				lv, _ := lang.Symbol(name)
@@ -450,6 +627,32 @@ func check(cs Case, c *vcommon.Ctx) *vcommon.Failure {
 }
 
 var _ = fmt.Sprint
+
+func kindOf(v *lisp.LVal) string {
+	if v.Type != lisp.LFun {
+		return vcommon.Canon(v)
+	}
+	switch {
+	case v.IsSpecialOp():
+		return "#fn/special-operator"
+	case v.IsMacro():
+		return "#fn/macro"
+	}
+	return "#fn/function"
+}
+
+func refKindOf(v *refint.V) string {
+	if v.T != refint.TFun {
+		return refint.Canon(v)
+	}
+	switch {
+	case v.Fn.Macro:
+		return "#fn/macro"
+	case v.Fn.Special:
+		return "#fn/special-operator"
+	}
+	return "#fn/function"
+}
 
 func TestCheck(t *testing.T) {
 	vcommon.Main(t, "C08",
